@@ -10,7 +10,7 @@ from mc.engine import Harness, Result, V
 from mc.heapfp import try_fingerprint
 from mc.world import reset_globals
 
-CLASSES = ['A', 'B', 'C', 'B2']
+CLASSES = ['A', 'B', 'C', 'B2', 'D']
 
 
 class C13(Harness):
@@ -19,7 +19,7 @@ class C13(Harness):
     kind = 'bfs'
     technique = ('explicit-state BFS over class-level sets, add_parameter, cache-filling reads and instance operations on a real class hierarchy; '
                  'invariant: .param agrees with inspect.getattr_static / getattr on every class and instance in every reached state')
-    rule = ('state = heap fingerprint of the hierarchy A->B->C, A->B2 and up to two instances; transition = one operation; the invariant is evaluated '
+    rule = ('state = heap fingerprint of the hierarchy A->B->C, A->B2, D(B, B2) and up to two instances; transition = one operation; the invariant is evaluated '
             'after every step, followed by a probe (watch + set on every instance, fresh instance of every class)')
     assumptions = ('non-dynamic values; parameters x (bounded Number), y (String), k (constant list) and an added z',)
 
@@ -37,7 +37,8 @@ class C13(Harness):
         B = type('B', (A,), {})
         C = type('C', (B,), {})
         B2 = type('B2', (A,), {'y': param.String(default='b2')})
-        return {'param': param, 'A': A, 'B': B, 'C': C, 'B2': B2, 'inst': []}
+        D = type('D', (B, B2), {})       # diamond: only the later base (B2) redeclares y
+        return {'param': param, 'A': A, 'B': B, 'C': C, 'B2': B2, 'D': D, 'inst': []}
 
     def enabled(self, w):
         ops = []
@@ -49,7 +50,7 @@ class C13(Harness):
             ops.append(['addp', K, 'z'])
             ops.append(['addp', K, 'x'])
         if len(w['inst']) < 2:
-            ops += [['new', 'B'], ['new', 'C'], ['new', 'A']]
+            ops += [['new', 'B'], ['new', 'C'], ['new', 'A'], ['new', 'D']]
         for i in range(len(w['inst'])):
             ops += [['iset', i, 'x', 5], ['iread', i], ['iset', i, 'y', 'w']]
         return ops
